@@ -34,6 +34,7 @@ EXPLANATION += (" R-C14-7 (memo rule): no caching decorator or unreset memo attr
 EXPLANATION += (" R-C14-9: the validity tests of a binning do not use is_monotonic_decreasing as a stand-in for 'not increasing' (pandas reports an index of one class as both), so single-class target binnings are accepted.")
 EXPLANATION += (' R-C14-10: no absolute tolerance on loads, class widths, overlaps or cycle counts in the collective and histogram modules (np.isclose / allclose with an absolute part, rounding to fixed digits, comparison with or addition of a small fixed number); zero instances expected, built-in example with one instance of each kind.')
 EXPLANATION += (' R-C14-11 (shared with R-C13-9): the two results of a broadcast in scale / shift stay paired - neither is re-ordered on its own before they are combined row by row.')
+EXPLANATION += (' R-C14-12: class edges reach np.histogram2d as an explicit pair of edge arrays; a caller\'s sequence handed over as it is would be read as a pair of class counts when it has two entries (built-in example).')
 ASSUMPTIONS = ["DataFrame.max(axis=1)/min(axis=1) over the two columns is the row-wise max/min", "range >= 0",
                "pandas reports an index of a single element as is_monotonic_increasing and is_monotonic_decreasing"]
 
@@ -163,6 +164,59 @@ def run(ctx):
     ctx.attempt(_r9)
     ctx.attempt(_r10)
     ctx.attempt(_r11)
+    ctx.attempt(_r12)
+
+
+def ambiguous_2d_bins(outer_fn):
+    """np.histogram2d(x, y, B): numpy reads a B of exactly two numbers as the pair of class COUNTS of the two axes.  If B is a
+    bin specification taken over from the caller, the two edges of a single class are such a pair.  Unambiguous: a literal pair
+    `[ex, ey]`, or a name that is re-bound to such a pair (for the non-scalar case) in the function or an enclosing one."""
+    out = []
+    for c in ast.walk(outer_fn):
+        if isinstance(c, ast.Call) and (call_name(c) or "").endswith("histogram2d"):
+            b = c.args[2] if len(c.args) > 2 else next((k.value for k in c.keywords if k.arg == "bins"), None)
+            if b is None:
+                continue
+            if isinstance(b, (ast.List, ast.Tuple)) and len(b.elts) == 2:
+                continue
+            if isinstance(b, ast.Name):
+                pairs = [st for st in ast.walk(outer_fn) if isinstance(st, ast.Assign) and
+                         any(isinstance(t, ast.Name) and t.id == b.id for t in st.targets) and
+                         isinstance(st.value, (ast.List, ast.Tuple)) and len(st.value.elts) == 2]
+                if pairs:
+                    continue
+            out.append((c, norm_text(b)))
+    return out
+
+
+def _r12(ctx):
+    """R-C14-12: every bin specification means the same for the range histogram and for the range/mean histogram.  The
+    two-dimensional count hands its class edges to numpy as an explicit pair of edge arrays; a caller's sequence handed over as
+    it is would be read as (number of range classes, number of mean classes) when it has exactly two entries - the edges of a
+    single class."""
+    prog = ctx.prog
+    ctx.rule("R-C14-12", floor=1, what="class edges reach np.histogram2d as an explicit pair of edge arrays (a single class is two edges, not two counts)")
+    ex = ast.parse("def f(self, bins):\n    def m(g):\n        return np.histogram2d(g.a, g.b, bins)\n    return m(self.x)\n"
+                   "def g(self, bins):\n    if not np.isscalar(bins):\n        bins = [np.asarray(bins), np.asarray(bins)]\n"
+                   "    def m(g):\n        return np.histogram2d(g.a, g.b, bins)\n    return m(self.x)\n")
+    if len(ambiguous_2d_bins(ex.body[0])) != 1 or ambiguous_2d_bins(ex.body[1]):
+        raise AnalysisError("R-C14-12 built-in example not matched")
+    n = 0
+    for key, fi in sorted(prog.functions.items()):
+        if not fi.module.name.startswith("pylife.stress.collective") or fi.parent is not None:
+            continue
+        if not any((call_name(c) or "").endswith("histogram2d") for c in ast.walk(fi.node) if isinstance(c, ast.Call)):
+            continue
+        n += 1
+        bad = ambiguous_2d_bins(fi.node)
+        for c, b in bad:
+            ctx.violated(fi, c, "%s: %s receives the caller's bin specification %s as it is: two class edges (one class) are read by "
+                         "numpy as the class counts of the two axes, the range/mean histogram then has other classes than the range "
+                         "histogram of the same specification" % (fi.name, norm_text(c)[:50], b), text="ambiguous 2d bins in " + fi.name)
+        if not bad:
+            ctx.holds(fi, fi.node, "%s: np.histogram2d gets an explicit pair of edge arrays" % fi.name)
+    if n < 1:
+        raise AnalysisError("no two-dimensional histogram found in the collective modules")
 
 
 def _r11(ctx):
@@ -954,6 +1008,16 @@ AP = "src/pylife/stress/collective/abstract_load_collective.py"
 
 def variants():
     out = []
+
+    def bins_as_given(tree):
+        f = find_func(tree, "LoadCollective.histogram")
+        for i_, st in enumerate(f.body):
+            if isinstance(st, ast.If) and "isscalar" in ast.unparse(st.test):
+                del f.body[i_]
+                return True
+        return False
+    out.append(witness("bin specification handed to np.histogram2d as given", "src/pylife/stress/collective/load_collective.py", bins_as_given, "R-C14-12"))
+
 
     def decreasing_test(tree):
         f = find_func(tree, "_fail_if_binning_invalid")
